@@ -14,7 +14,7 @@ RULE = ('every ordered selection of <= K of the equations {X=f(Y), X=g(Y,Z), Y=h
         'findall/3 and through assertz + later read-back. At the innermost point get_value of X,Y,Z must be the fully '
         'dereferenced reference term (no bound variable anywhere inside), to_python must equal the reference value at '
         'every depth; the saved get_value results must be structurally unchanged after all generators are closed / '
-        'the query has finished (the [v.get_value() for _ in q] idiom). (3) bind/undo histories: every sequence of <= D operations "unify one of 11 equations (variable-variable links, structures, list cells with variable tails)" / "undo the most recent unification" with get_value of ALL variables taken after every operation (a lookup is itself an operation: it must not change what later lookups see) compared with the stack of active substitutions; at the end of every history the lookups are also run under every recursion limit from the current stack depth upwards (RecursionError at every depth of the dereferencing) and must afterwards give the same values. (5) interleaved lifetimes: 1..3 unrelated unifications are active before the equations start and are closed after the j-th equation, for every j (bindings of different queries are not undone in reverse order). (4) long values: a list of N cells and N nested f(_) for N in {8,33,64,100,101,102,128,160}, bound one cell per equation in 3 orders through the API and outer-first by compiled recursive predicates (also through findall and assertz), the saved value walked without dereferencing at the answer and after backtracking. states = distinct (sequence outcome) '
+        'the query has finished (the [v.get_value() for _ in q] idiom). (3) bind/undo histories: every sequence of <= D operations "unify one of 11 equations (variable-variable links, structures, list cells with variable tails)" / "undo the most recent unification" with get_value of ALL variables taken after every operation (a lookup is itself an operation: it must not change what later lookups see) compared with the stack of active substitutions; at the end of every history the lookups are also run under every recursion limit from the current stack depth upwards (RecursionError at every depth of the dereferencing) and must afterwards give the same values. (5) interleaved lifetimes: 1..3 unrelated unifications are active before the equations start and are closed after the j-th equation, for every j (bindings of different queries are not undone in reverse order). (4) every argument position: compounds of 1..9 arguments, each a variable or a structure around one, bound before / after the compound in 3 orders; long values: a list of N cells and N nested f(_) for N in {8,33,64,100,101,102,128,160}, bound one cell per equation in 3 orders through the API and outer-first by compiled recursive predicates (also through findall and assertz), the saved value walked without dereferencing at the answer and after backtracking. states = distinct (sequence outcome) '
         'observations; transitions = generator steps on the real engine; non-trivial = the value of X contains a '
         'variable that was bound after X')
 ASSUMPTIONS = ['sequences needing a cyclic term are skipped', 'values nested deeper than 160 levels are not covered (get_value is recursive; the Python recursion limit is reached at about 250 levels)', 'to_python of a partial list is unspecified and not compared']
@@ -312,6 +312,8 @@ def spine(v, kind):
 
 
 def check_long(kind, n, order, flavor):
+    if kind == 'arity':
+        return check_arity(n, order)
     label = '%s of %d cells, %s, %s: ' % (kind, n, order, flavor)
     yp = impl.new_engine(impl.compile_text(show_program(COPY)))
     if flavor == 'api':
@@ -385,7 +387,43 @@ def check_long(kind, n, order, flavor):
     return ('ok', (kind, n), steps, True)
 
 
+def check_arity(n, order):
+    """a compound of n arguments, each a variable (or a structure around one) bound before / after the
+    compound is: every argument position of the saved value is dereferenced"""
+    yp = impl.YP()
+    x = yp.variable()
+    vs = [yp.variable() for _ in range(n)]
+    term = yp.functor('k', [v if i % 2 == 0 else yp.functor('w', [v]) for i, v in enumerate(vs)])
+    steps = [(x, term)] + [(v, yp.atom('c%d' % i)) for i, v in enumerate(vs)]
+    if order == 'inner-first':
+        steps = steps[1:] + steps[:1]
+    elif order == 'last-argument-first':
+        steps = [steps[-1]] + steps[:-1]
+    gens = []
+    for l, r in steps:
+        g = iter(impl.engine.unify(l, r))
+        next(g)
+        gens.append(g)
+    saved = [impl.engine.get_value(x), x.get_value()]
+    for g in reversed(gens):
+        g.close()
+    label = 'k/%d with arguments bound %s: ' % (n, order)
+    for sv in saved:
+        if not isinstance(sv, impl.Functor) or len(sv._args) != n:
+            return ('violation', 'arity:value-lost', label + 'saved value is %r' % (sv,))
+        for i, a in enumerate(sv._args):
+            inner = a if i % 2 == 0 else (a._args[0] if isinstance(a, impl.Functor) and len(a._args) == 1 else None)
+            if isinstance(a, impl.Variable) or not isinstance(inner, impl.Atom) or inner.name() != 'c%d' % i:
+                return ('violation', 'arity:argument-not-dereferenced', label + 'after backtracking, argument %d of the value saved at the answer is %r (expected c%d%s)'
+                        % (i + 1, a, i, '' if i % 2 == 0 else ' inside w/1'))
+    return ('ok', ('arity', n), 2 * len(gens), True)
+
+
 def long_cases():
+    for n in range(1, 10):
+        for order in ('outer-first', 'inner-first', 'last-argument-first'):
+            yield 'arity', n, order, 'api'
+
     for kind in LONG_KINDS:
         for n in LONG_N:
             for order in LONG_ORDERS:
